@@ -337,6 +337,35 @@ def run(ctx) -> None:
         npaths += len(rp) + len(sp)
         absorb(rp, f"{T}.run")
         absorb(sp, f"{T}.stop")
+    # stop() itself must not raise: whatever follows the raising call on the stop path (the waker, the joins of the other emitters,
+    # the dispatcher's sentinel) is skipped, and the threads it was going to wake stay blocked
+    RNR = ctx.rule(
+        "C06/stop-never-raises",
+        "no path of a library thread's stop() (close chain inlined) ends in an exception of the modelled kinds (explicit raise statements "
+        "reached through the inlined helpers): an exception unwinds through every caller up to the application's stop()/unschedule() and "
+        "skips the wakers and joins that follow",
+        floor=3,
+    )
+    for T, sp in stops.items():
+        if P.classes[T].module.name in LINUX_SKIP:
+            continue
+        rs = [p for p in sp if p.outcome[0] == "raise"]
+        where, what = "", ""
+        if rs:
+            r = [e for e in rs[0].evs if e.kind == "raised"]
+            what = str(rs[0].outcome[1])
+            last_calls = [e for e in rs[0].evs if e.kind == "call"][-3:]
+            where = " after " + " -> ".join((e.raw or e.text)[:50] for e in last_calls)
+        ctx.check(
+            not rs,
+            RNR,
+            f"{T}.stop()",
+            f"{len(rs)} path(s) of {T}.stop() end in {what}{where}: the rest of the stop path does not run (for the reader: the kill pipe is not written and the descriptors stay open; for the observer: the remaining emitters are not stopped and the dispatcher's sentinel is never queued), so join() blocks forever",
+            P.find_method(T, "stop").loc,
+        )
+    if any((not i.ok) and i.rule == RNR for i in ctx.instances):
+        ctx.note("a stop path raises: the lock-order / waker analyses below presuppose stop paths that complete and are skipped for this run")
+        return
     # API entry points and helpers that take locks
     extra_entries = [
         ("BaseObserver", m, eb)
@@ -598,6 +627,7 @@ VARIANTS = [
     dict(name="B kill pipe not registered with the poller", expect="fire", rule="C06/every-block-has-a-waker", edits=[(IC, "            self._poller.register(self._kill_r, select.POLLIN)\n", "")]),
     dict(name="B select variant ignores the kill pipe", expect="fire", rule="C06/every-block-has-a-waker", edits=[(IC, "select.select([self._inotify_fd, self._kill_r], [], [])", "select.select([self._inotify_fd], [], [])")]),
     dict(name="B select variant reports the wrong descriptor", expect="fire", rule="C06/every-block-has-a-waker", edits=[(IC, "return self._inotify_fd in result[0]", "return self._inotify_fd not in result[0]")]),
+    dict(name="B close() raises when the root watch is already gone", expect="fire", rule="C06/stop-never-raises", edits=[(IC, "                    inotify_rm_watch(self._inotify_fd, wd)\n\n                if self._is_reading:", "                    if inotify_rm_watch(self._inotify_fd, wd) == -1:\n                        Inotify._raise_error()\n\n                if self._is_reading:")]),
     dict(name="B kill-pipe write dropped", expect="fire", rule="C06/every-block-has-a-waker", edits=[(IC, "                    os.write(self._kill_w, b\"!\")", "                    pass")]),
     dict(name="B stop hook takes the emitter lock", expect="fire", rule="C06/", edits=[(IN, "    def on_thread_stop(self) -> None:\n        if self._inotify:\n            self._inotify.close()\n            self._inotify = None", "    def on_thread_stop(self) -> None:\n        with self._lock:\n            if self._inotify:\n                self._inotify.close()\n                self._inotify = None")]),
     dict(name="B DelayedQueue.close without notify", expect="fire", rule="C06/", edits=[(DQ, "        self._not_empty.acquire()\n        self._not_empty.notify()\n        self._not_empty.release()\n\n    def get", "\n    def get")]),
